@@ -1542,7 +1542,54 @@ func (b *Books) OpReceive(w *bWallet, t *bToken, swapToTrusted, stripDLEQ bool) 
 		got, err = w.W.Receive(rawToken{proofs: ps, mint: b.mints[t.mint].url}, swapToTrusted)
 		return err
 	})
+	// C10 (acceptance clause): "the proof a wallet attaches to an unblinded token (with r) is accepted by a third party".
+	// A token refused as "invalid DLEQ proof" although EVERY DLEQ proof in it verifies under the published key of the
+	// keyset its proof belongs to (model-free: nut12.VerifyProofDLEQ with the mint's own key) is a violation (F19: the
+	// receiving wallet verified against the keys of the ACTIVE keyset, so old-keyset tokens were refused after a rotation).
+	if err != nil && strings.Contains(err.Error(), "invalid DLEQ proof") {
+		allValid, withDleq := true, 0
+		for _, p := range ps {
+			if p.DLEQ == nil {
+				continue
+			}
+			withDleq++
+			ks, kerr := b.mints[t.mint].env.M.GetKeysetById(p.Id)
+			if kerr != nil {
+				allValid = false
+				break
+			}
+			K, ok := ks.Keys[p.Amount]
+			if !ok || !nut12.VerifyProofDLEQ(p, K) {
+				allValid = false
+				break
+			}
+		}
+		if allValid && withDleq > 0 {
+			b.c.MonitorFail("C10", "C10/receive/valid-dleq-refused", fmt.Sprintf("%s: Receive refused a token as 'invalid DLEQ proof' although all %d DLEQ proofs in it verify under the published keys of their own keysets (keysets in the token: %s)", w.name, withDleq, b.tokenKeysets(ps)), b.replay())
+		} else {
+			b.c.Hist("C10 receive", "dleq-refused-rightly")
+		}
+	} else if err == nil {
+		for _, p := range ps {
+			if p.DLEQ != nil {
+				b.c.Hist("C10 receive", "token-with-dleq-accepted/"+map[bool]string{true: "active-keyset", false: "old-keyset"}[p.Id == b.mints[t.mint].env.ActiveKeysetId()])
+				break
+			}
+		}
+	}
 	return got, err
+}
+
+func (b *Books) tokenKeysets(ps cashu.Proofs) string {
+	seen := map[string]bool{}
+	var out []string
+	for _, p := range ps {
+		if !seen[p.Id] {
+			seen[p.Id] = true
+			out = append(out, b.ksName(p.Id))
+		}
+	}
+	return strings.Join(out, ",")
 }
 
 // OpMeltQuote: an invoice of an outside node + RequestMeltQuote.
